@@ -61,6 +61,7 @@ SPEC = dict(
         dict(name='lemma_mutex_init', harness='lemma_mutex_init', mode='lemma'),
         dict(name='lemma_mutex_exclusion', harness='lemma_mutex_exclusion', mode='lemma'),
         dict(name='lemma_mutex_no_lost_waiter', harness='lemma_mutex_no_lost_waiter', mode='lemma'),
+        dict(name='lemma_mutex_race_with_release', harness='lemma_mutex_race_with_release', mode='lemma'),
     ],
     assumptions=[
         'the contracts of atomic_intrusive_queue (specs/atomic_queue/aq_contract.h, enforced on the real bodies in group atomic_queue) '
